@@ -456,6 +456,7 @@ class AttackProp(core.Prop):
         while made < nworlds:
             desc, actor = gen_attack_world(rng, big=not quick)
             gridw.maybe_enc0(rng, desc, 0.08)
+            gridw.maybe_late(rng, desc, 0.08)
             actor["kind"] = KINDS[made % 4]          # the four actors in equal shares
             ood = False
             if actor["kind"] != "encoding" and rng.random() < 0.04:
